@@ -41,6 +41,9 @@ type Spec struct {
 	Outside     []string          `json:"outside"`
 	Clauses     map[string][]string `json:"clauses,omitempty"`
 	Merge       []string          `json:"merge,omitempty"` // pure functions summarised by ITE merging
+	StaticTypeSwitch string        `json:"static_typeswitch,omitempty"` // package prefix for the structural type-switch check
+	StaticLoad  []string          `json:"static_load,omitempty"`       // extra package patterns to load for it
+	StaticExclude []string        `json:"static_exclude,omitempty"`
 }
 
 type KnownFinding struct {
@@ -144,7 +147,8 @@ func buildOverlay(spec *Spec, specDir string, native bool) (map[string][]byte, e
 		pdir := filepath.Join(repoDir, pkg)
 		name, err := pkgNameOf(pdir)
 		if err != nil {
-			return nil, err
+			// a virtual package that exists only in the overlay
+			name = filepath.Base(pkg)
 		}
 		ov[filepath.Join(pdir, "zz_vf_rt.go")] = []byte(strings.Replace(string(rt), "PKGNAME", name, 1))
 		for _, f := range files {
@@ -226,6 +230,7 @@ func cmdRun(args []string) int {
 		patterns = append(patterns, "./"+pkg)
 	}
 	sort.Strings(patterns)
+	patterns = append(patterns, spec.StaticLoad...)
 	prog, err := interp.Load(repoDir, ov, patterns...)
 	if err != nil {
 		fmt.Fprintln(os.Stderr, "gosym: load:", err)
@@ -490,6 +495,39 @@ func cmdRun(args []string) int {
 	known := loadKnown()
 	exit := 0
 	nViol := 0
+	staticNote := ""
+	if spec.StaticTypeSwitch != "" {
+		// Structural cross-check: every function that switches over the kinds of orb.Geometry must be
+		// executed by the totality harness (which feeds it every kind and nil), or be excluded with a reason.
+		n, incomplete, fns := checkTypeSwitches(prog, spec.StaticTypeSwitch)
+		if n == 0 {
+			machinery = append(machinery, "static type-switch scan found no type switches (vacuous)")
+		}
+		var notEntered, excluded []string
+		entered := 0
+		for _, f := range fns {
+			ex := false
+			for _, e := range spec.StaticExclude {
+				if strings.Contains(f, e) {
+					ex = true
+				}
+			}
+			switch {
+			case total.FuncsEntered[f]:
+				entered++
+			case ex:
+				excluded = append(excluded, f)
+			default:
+				notEntered = append(notEntered, f)
+			}
+		}
+		staticNote = fmt.Sprintf("structural scan: %d type switches over orb.Geometry in %d functions; %d executed by the totality harness with every kind and nil; excluded (outside claim): %v; switches that do not name all nine kinds and have a panicking default (decided dynamically by the totality harness, listed for information): %d", n, len(fns), entered, excluded, len(incomplete))
+		if len(onlySet) == 0 && *onlyCase < 0 {
+			for _, f := range notEntered {
+				machinery = append(machinery, "coverage gap: function with a type switch over orb.Geometry is not exercised by the totality harness: "+f)
+			}
+		}
+	}
 	knownHit := map[string]bool{}
 	replays := 0
 	var replayNotes []string
@@ -540,7 +578,7 @@ func cmdRun(args []string) int {
 		} else {
 			machinery = append(machinery, fmt.Sprintf("ENCODING-MISMATCH: counterexample did not reproduce natively: %s %s %s (%s)", vr.w.Harness, vr.w.Label, vr.w.ID, firstLine(outp)))
 			if *verbose {
-				fmt.Fprintln(os.Stderr, "replay output:", outp, "\nwitness:", vr.w.Values)
+				fmt.Fprintln(os.Stderr, "replay output:", outp, "\nwitness:", vr.w.Values, "\nstack:", vr.v.Stack)
 			}
 		}
 	}
@@ -564,6 +602,9 @@ func cmdRun(args []string) int {
 	}
 	wall := time.Since(t0).Seconds()
 	if !*noEvidence {
+		if staticNote != "" {
+			replayNotes = append(replayNotes, staticNote)
+		}
 		writeEvidence(spec, *tier, seed, total, nontrivial, solver, perHarness, len(jobs), nViol, len(knownHit), replays, machinery, replayNotes, wall, results)
 	}
 	fmt.Printf("%s %s: jobs=%d paths=%d obligations=%d discharged=%d queries=%d (sat %d unsat %d unknown %d) solver=%.1fs wall=%.1fs violations=%d known=%d exit=%d\n",
